@@ -128,6 +128,19 @@ func CheckC15(c *Ctx) {
 			add(-x, "-m*2^e")
 		}
 	}
+	// integer-conversion wrap-arounds: 2^k + j and c*2^32 + j for small j (whole and fractional)
+	for k := 7; k <= 70; k++ {
+		for j := -3.0; j <= 13; j += 0.5 {
+			add(math.Ldexp(1, k)+j, "2^k+j")
+			add(-(math.Ldexp(1, k) + j), "-(2^k+j)")
+		}
+	}
+	for _, cc := range []float64{1, 2, 3, 255, 65535, 12345, 1 << 20, 1<<21 - 1} {
+		for j := 0.0; j <= 12; j += 0.25 {
+			add(cc*4294967296+j, "c*2^32+j")
+			add(cc*65536+j, "c*2^16+j")
+		}
+	}
 	for e := -324; e <= 308; e++ {
 		for _, m := range []float64{1, 3, 9.999999999999999} {
 			x := m * math.Pow(10, float64(e))
@@ -157,7 +170,7 @@ func CheckC15(c *Ctx) {
 		c.Floor("oracle class "+cl, c.Counts["oracle:"+cl], 10)
 	}
 	c.SetReport(Report{
-		Rule:        "interval oracle of the statement evaluated on the exact real value of the float64 (math/big), applied to the three Rating functions (hence also their mutual agreement); error identity via errors.Is(ErrOutOfBoundsScore) and empty string. COMPLETE: all 101 one-decimal scores, each threshold 0/0.1/4/7/9/10 with 1-4 ulps below and above, +-1e-9, -0.0, +-smallest subnormal, +-Inf, +-MaxFloat64; every one-decimal score also as k*0.1 and as 0.1 added k times, with 1-4 ulps and +-10^-j (j=1..16) around it and around its midpoint to the next score; six mantissa patterns at EVERY binary exponent (-1074..1023, so every denormal magnitude) and three at every decimal exponent, both signs; sampled: random float64 bit patterns and random values in [-1,11]. NaN skipped (unspecified). distinct = distinct float64 bit patterns",
+		Rule:        "interval oracle of the statement evaluated on the exact real value of the float64 (math/big), applied to the three Rating functions (hence also their mutual agreement); error identity via errors.Is(ErrOutOfBoundsScore) and empty string. COMPLETE: all 101 one-decimal scores, each threshold 0/0.1/4/7/9/10 with 1-4 ulps below and above, +-1e-9, -0.0, +-smallest subnormal, +-Inf, +-MaxFloat64; every one-decimal score also as k*0.1 and as 0.1 added k times, with 1-4 ulps and +-10^-j (j=1..16) around it and around its midpoint to the next score; 2^k+j and c*2^32+j / c*2^16+j for small j (integer-conversion wrap-arounds); six mantissa patterns at EVERY binary exponent (-1074..1023, so every denormal magnitude) and three at every decimal exponent, both signs; sampled: random float64 bit patterns and random values in [-1,11]. NaN skipped (unspecified). distinct = distinct float64 bit patterns",
 		Assumptions: []string{"none beyond math/big"},
 	})
 	c.Finish()
